@@ -21,12 +21,12 @@ from harness import common
 
 
 def fl(x):
-  return [float(v) for v in np.asarray(x, dtype=np.float64).ravel()]
+  return [float(v) if np.isfinite(v) else 0.0 for v in np.asarray(x, dtype=np.float64).ravel()]
 
 
 def mat(x):
   x = np.asarray(x, dtype=np.float64)
-  return [[float(v) for v in row] for row in x]
+  return [[float(v) if np.isfinite(v) else 0.0 for v in row] for row in x]
 
 
 def ds_boxes(shape, b):
